@@ -93,7 +93,7 @@ func execCallsOf(f *ssa.Function, res *Result, names map[ssa.Value]string) []exe
 		if cal == nil || cal.Pkg != f.Pkg {
 			return
 		}
-		ec := execCall{Callee: cal.Name(), In: c}
+		ec := execCall{Callee: roleName(cal), In: c}
 		for _, arg := range c.Common().Args {
 			switch {
 			case isIntegerType(arg.Type()):
